@@ -285,15 +285,17 @@ class Run:
     def lemma_f3(self):
         """The floating-point lemma the VCs of this run rely on is established in this run (pyvc/fplemmas.py)."""
         from . import fplemmas
-        r = fplemmas.f3_cells()
-        neg = fplemmas.f3_cells(claim="stored")
+        r = fplemmas.f3_cells(limit_us=fplemmas.LIMIT_F3_US, step=1)
+        p2 = fplemmas.f3_powers_of_two(fplemmas.LIMIT_F3_US)
+        neg = fplemmas.f3_cells(limit_us=fplemmas.LIMIT_F3_US, step=1, claim="stored")
         smp = fplemmas.f3_sample(20000 if self.tier == "quick" else 2000000, seed=self.seed + 1)
         self.extra_cov.setdefault("lemmas", []).append(
-            f"F3 fromtimestamp((T.timestamp()*1000000)/1000000) == T for every whole-millisecond instant 1970..2100: binade-split exact "
-            f"rounding in linear arithmetic, {r.get('cells')} cells: {'proved' if r['ok'] else 'FAILED ' + str(r)} ({r['time_s']} s); negative control "
+            f"F3 fromtimestamp((T.timestamp()*1000000)/1000000) == T for every whole-microsecond instant from 1970 to 2100 + 31 days: "
+            f"binade-split exact rounding in linear arithmetic, {r.get('cells')} cells: {'proved' if r['ok'] else 'FAILED ' + str(r)} ({r['time_s']} s); the "
+            f"{p2.get('points')} instants at powers of two (left out of the cells) evaluated under CPython: {'ok' if p2['ok'] else 'FAILED'}; negative control "
             f"('the stored float equals T') {'refuted as it must be' if not neg['ok'] else 'NOT refuted'}; CPython on {smp.get('points')} instants "
             f"(random + next to every binade boundary): {'agrees' if smp['ok'] else 'DISAGREES ' + smp.get('err', '')}")
-        good = r["ok"] and not neg["ok"] and smp["ok"]
+        good = r["ok"] and p2["ok"] and not neg["ok"] and smp["ok"]
         self.extra_cov["obligations"] = self.extra_cov.get("obligations", 0) + 1
         self.extra_cov["discharged"] = self.extra_cov.get("discharged", 0) + (1 if good else 0)
         self.extra_cov.setdefault("ledger", {})[f"{self.pid}/lemma:F3"] = r["time_s"]
